@@ -767,17 +767,26 @@ Proof.
   split; [vm_compute; reflexivity|]. eexists. split; vm_compute; reflexivity.
 Qed.
 
-(* import of two notes with different file names and the same key (`x.md` and `x.md.md`, the
-   known finding F-C14-5): the first root stays live and unrooted *)
+(* import of a list that names one key twice (a State is a HashMap and cannot; the model's list can):
+   the first root stays live and unrooted - the premise NoDup of import_wf is needed.  In the pinned
+   tree two DIFFERENT state names could be one key (`Key::from_file_name` stripped every `.md`:
+   `x.md` and `x.md.md`, finding F-C14-5); since the repair a state name is its key (`Key::name`) *)
 Theorem import_wf_refuted :
-  exists notes g, NoDup (map (fun n : string * option string * list dblock => fst (fst n)) notes) /\
+  exists notes g, map (fun n : string * option string * list dblock => fst (fst n)) notes = ["x"; "x"] /\
     import notes = Ok g /\ wf_b (gr_arena g) (gr_keys g) = false.
 Proof.
-  exists [("x.md", None, [DPara (0, 1) [Str "p"]]); ("x.md.md", None, [])]. eexists. split; [|split].
-  - repeat constructor; cbn; intuition discriminate.
+  exists [("x", None, [DPara (0, 1) [Str "p"]]); ("x", None, [])]. eexists. split; [|split].
+  - reflexivity.
   - vm_compute. reflexivity.
   - vm_compute. reflexivity.
 Qed.
+
+(* the former witness of F-C14-5 - the files `x.md` and `x.md.md`, loaded as the state names `x` and
+   `x.md` - is now an ordinary import: two keys, two rooted trees *)
+Example import_double_md_wf :
+  exists g, import [("x", None, [DPara (0, 1) [Str "p"]]); ("x.md", None, [])] = Ok g /\
+    map fst (gr_keys g) = ["x"; "x.md"] /\ wf_b (gr_arena g) (gr_keys g) = true.
+Proof. eexists. split; [vm_compute; reflexivity|]. split; vm_compute; reflexivity. Qed.
 
 (* ---------- building a note: the key-map side -------------------------------------------------- *)
 
@@ -1030,14 +1039,14 @@ Section WithBuilder.
 
   (* Graph::import of notes with pairwise distinct keys *)
   Definition note_key (n : string * option string * list dblock) : string :=
-    key_from_file_name (fst (fst n)).
+    key_name (fst (fst n)).
 
   Lemma import_fold_inv (notes : list (string * option string * list dblock)) :
     NoDup (map note_key notes) ->
     forall g0, graph_inv g0 ->
     (forall n, In n notes -> alookup (note_key n) (gr_keys g0) = None) ->
     exists g1, fold_left (fun acc n => do g <- acc; let '(name, meta, bs) := n in
-                            build_note g (key_from_file_name name) meta bs) notes (Ok g0) = Ok g1 /\
+                            build_note g (key_name name) meta bs) notes (Ok g0) = Ok g1 /\
                graph_inv g1.
   Proof.
     induction notes as [|[[name meta] bs] notes IH]; intros Hnd g0 Hinv Hfresh; cbn [fold_left].
@@ -1045,7 +1054,7 @@ Section WithBuilder.
     - cbn [map] in Hnd. apply NoDup_cons_iff in Hnd as [Hni Hnd]. cbn [bind snd] in *.
       pose proof (Hfresh _ (or_introl eq_refl)) as Hnone. unfold note_key in Hnone. cbn [fst] in Hnone.
       destruct g0 as [a keys maps titles metas].
-      destruct (build_note_inv a keys maps titles metas (key_from_file_name name) meta bs
+      destruct (build_note_inv a keys maps titles metas (key_name name) meta bs
                   (ready_fresh _ _ Hinv Hnone)) as (g1 & -> & Hinv1 & Hkeys1).
       apply IH; auto.
       intros n Hin. rewrite Hkeys1. cbn [gr_keys gr_arena] in *.
